@@ -26,7 +26,6 @@ theorem noFinAfterRel_append {a b : List TEv} (ha : noFinAfterRel a = true) (hb 
     | fired _ => exact ih (by simpa [noFinAfterRel] using ha) (fun m hm => hd m (by simpa [relOrders] using hm))
     | fin _ _ _ => exact ih (by simpa [noFinAfterRel] using ha) (fun m hm => hd m (by simpa [relOrders] using hm))
     | skip _ _ => exact ih (by simpa [noFinAfterRel] using ha) (fun m hm => hd m (by simpa [relOrders] using hm))
-    | dropped _ _ => exact ih (by simpa [noFinAfterRel] using ha) (fun m hm => hd m (by simpa [relOrders] using hm))
 
 /-- a stretch of trace without finalisations can always be appended -/
 theorem noFinAfterRel_append_nofin {a b : List TEv} (ha : noFinAfterRel a = true) (hb : finOrders b = []) :
@@ -44,7 +43,6 @@ theorem noFinAfterRel_append_nofin {a b : List TEv} (ha : noFinAfterRel a = true
     | unmark _ => exact ih (by simpa [finOrders] using hb)
     | fired _ => exact ih (by simpa [finOrders] using hb)
     | skip _ _ => exact ih (by simpa [finOrders] using hb)
-    | dropped _ _ => exact ih (by simpa [finOrders] using hb)
 
 theorem noFinAfterRel_of_norel {b : List TEv} (hb : relOrders b = []) : noFinAfterRel b = true := by
   induction b with
@@ -57,7 +55,6 @@ theorem noFinAfterRel_of_norel {b : List TEv} (hb : relOrders b = []) : noFinAft
     | unmark _ => exact ih (by simpa [relOrders] using hb)
     | fired _ => exact ih (by simpa [relOrders] using hb)
     | skip _ _ => exact ih (by simpa [relOrders] using hb)
-    | dropped _ _ => exact ih (by simpa [relOrders] using hb)
 
 /-! how each primitive extends the trace -/
 
@@ -141,19 +138,19 @@ theorem InvR.use {p : Pool} (h : InvR p) (u : Use) (hu : isRtUse u = true) : Inv
       have := finAll_tr hfat
       rw [use_of_not_fatal hfat] at this
       simp only at this ⊢; rw [this]
-      refine noFinAfterRel_append h.nfar (noFinAfterRel_of_norel ?_) ?_
-      · rw [relOrders_append, relOrders_droppedEvs, relOrders_finEvs]; rfl
-      · intro n hn
-        rw [finOrders_append, finOrders_droppedEvs, finOrders_finEvs, afOut_eq, List.nil_append]
-        intro hm
-        obtain ⟨e, he, heo⟩ := mem_ords.mp (mem_ords_sortDesc.mp hm)
-        exact (h.inv.regRel e (List.mem_filter.mp he).1).1 (heo ▸ hn)
+      refine noFinAfterRel_append h.nfar (noFinAfterRel_of_norel (relOrders_finEvs _ _)) ?_
+      intro n hn
+      rw [finOrders_finEvs]
+      intro hm
+      rcases mem_afOut hm with ⟨e, he, _, heo⟩ | hpf
+      · exact (h.inv.regRel e he).1 (heo ▸ hn)
+      · exact h.relSafe n hn hpf
     | popRel =>
       have := popRel_tr hfat
       rw [use_of_not_fatal hfat] at this
       simp only at this ⊢; rw [this]
       refine noFinAfterRel_append_nofin h.nfar ?_
-      rw [finOrders_append, finOrders_append, finOrders_skipEvs, finOrders_skipEvs, finOrders_relEvs]; rfl
+      rw [finOrders_append, finOrders_skipEvs, finOrders_relEvs]; rfl
     | xPF => cases hu
     | xPR => cases hu
     | xAF => cases hu
